@@ -2409,9 +2409,22 @@ ec_point_affine_joint_twin_mult(ec_point_p a, bn_p ad, ec_point_p b, bn_p bd,
 
 
 
+/* Verification hook: fault injection for the scalar multiplication dispatchers,
+ * compiled out unless LIBLCB_VERIF is defined (and a no-op unless the harness
+ * provides lcb_verif_fail()). */
+#ifdef LIBLCB_VERIF
+extern int lcb_verif_fail(const char *site) __attribute__((weak));
+#	define LCB_VERIF_FAIL(__site)						\
+	    (NULL != lcb_verif_fail && 0 != lcb_verif_fail(__site))
+#else
+#	define LCB_VERIF_FAIL(__site)	(0)
+#endif
+
 /* Mult unknown point and digit. */
 static inline int
 ec_point_unknown_pt_mult(ec_point_p point, bn_p d, ec_curve_p curve) {
+	if (LCB_VERIF_FAIL("ec_point_unknown_pt_mult"))
+		return (EINVAL);
 
 #if EC_PF_UNKPT_MULT_ALGO == EC_PF_UNKPT_MULT_ALGO_BIN
 	BN_RET_ON_ERR(ec_point_bin_mult(point, d, curve));
@@ -2428,6 +2441,8 @@ ec_point_unknown_pt_mult(ec_point_p point, bn_p d, ec_curve_p curve) {
 /* Mult fixed base point and digit. */
 static inline int
 ec_point_mult_bp(bn_p d, ec_curve_p curve, ec_point_p res) {
+	if (LCB_VERIF_FAIL("ec_point_mult_bp"))
+		return (EINVAL);
 
 #if EC_PF_FXP_MULT_ALGO == EC_PF_FXP_MULT_ALGO_BIN
 	BN_RET_ON_ERR(ec_point_assign(res, &curve->G));
@@ -2442,6 +2457,9 @@ ec_point_mult_bp(bn_p d, ec_curve_p curve, ec_point_p res) {
 static inline int
 ec_point_twin_mult_bp(bn_p Gd, ec_point_p b, bn_p bd, ec_curve_p curve,
     ec_point_p res) {
+
+	if (LCB_VERIF_FAIL("ec_point_twin_mult_bp"))
+		return (EINVAL);
 #if EC_PF_TWIN_MULT_ALGO == EC_PF_TWIN_MULT_ALGO_FXP_UNKPT
 	BN_RET_ON_ERR(ec_point_fpx_unkpt_twin_mult_bp(Gd, b, bd, curve, res));
 #else
